@@ -221,13 +221,20 @@ static void harness(void) {
 #define C17_LEAD 0      /* the action input starts at the first 'u' */
 #define C17_CALL w_j
 #endif
+/* bytes allocated after the matched text (symbolic content).  unescape_j forms and compares pointers up to 2 bytes past the
+ * end of its match (b + 6 < in.end(), b += 6); with fewer than 2 bytes after the match these are outside the buffer (CBMC:
+ * "pointer outside object bounds"; invisible to ASan/UBSan).  See ASSUMPTIONS in props/C17.py. */
 #ifndef C17_SLACK
-#define C17_SLACK 0
+#define C17_SLACK 2
+#endif
+#ifndef C17_MAXE
+#define C17_MAXE 3      /* largest number of consecutive escapes */
 #endif
 /* exact-size buffer; under CBMC one object of constant size per number of escapes */
 static u8 *j_alloc(u64 ne, u64 n) {
 #ifdef __CPROVER__
-  u8 *p = ne == 1 ? malloc(5 + C17_LEAD + C17_SLACK) : ne == 2 ? malloc(11 + C17_LEAD + C17_SLACK) : malloc(17 + C17_LEAD + C17_SLACK);
+  u8 *p = 0;
+  for (u64 k = 1; k <= C17_MAXE; ++k) if (ne == k) p = malloc(6 * k - 1 + C17_LEAD + C17_SLACK);
   __CPROVER_assume(p != 0);
   return p;
 #else
@@ -235,34 +242,35 @@ static u8 *j_alloc(u64 ne, u64 n) {
 #endif
 }
 static void harness(void) {
-  u64 o[18], e[16], d[12], v[4], cls[3];
+  u64 o[18], e[4 * C17_MAXE + 4], d[4 * C17_MAXE], v[C17_MAXE + 1], cls[C17_MAXE];
   draw_prefix();
-  u64 ne = IN(1, 3);                              /* number of consecutive \uXXXX escapes */
+  u64 ne = IN(1, C17_MAXE);                       /* number of consecutive \uXXXX escapes */
 #ifdef C17_NE
   ASSUME(ne == C17_NE);                           /* CBMC slice: one query per number of escapes */
 #endif
-  for (u64 i = 0; i < 3; ++i) cls[i] = IN(0, 2);
-  for (u64 i = 0; i < 12; ++i) d[i] = IN(0, 21);
+  for (u64 i = 0; i < C17_MAXE; ++i) cls[i] = IN(0, 2);
+  for (u64 i = 0; i < 4 * C17_MAXE; ++i) d[i] = IN(0, 21);
+  u64 slack[2]; slack[0] = IN_BYTE(); slack[1] = IN_BYTE();
   /* cls only steers the random (translation validation) runs towards surrogates; cls == 0 leaves every digit free */
-  for (u64 i = 0; i < 3; ++i) {
+  for (u64 i = 0; i < C17_MAXE; ++i) {
     if (cls[i] == 1) { d[4 * i] = 13; d[4 * i + 1] = 8 + (d[4 * i + 1] & 3); }     /* d8xx..dbxx */
     if (cls[i] == 2) { d[4 * i] = 19; d[4 * i + 1] = 18 + (d[4 * i + 1] & 3); }    /* DCxx..DFxx */
   }
   u64 n = 6 * ne - 1 + C17_LEAD;
-  u8 *b = j_alloc(ne, n + C17_SLACK);          /* exact size: any access past the match is an error */
-  for (u64 i = 0; i < 3; ++i) if (i < ne) {
+  u8 *b = j_alloc(ne, n + C17_SLACK);          /* exact size: any access past the match (+ C17_SLACK) is an error */
+  for (u64 i = 0; i < C17_MAXE; ++i) if (i < ne) {
     u64 p = 6 * i + C17_LEAD;                    /* position of the 'u' of escape i */
     if (p > 0) b[p - 1] = '\\';
     b[p] = 'u';
     for (u64 j = 0; j < 4; ++j) b[p + 1 + j] = (u8)c17_xd[d[4 * i + j]];
   }
-  for (u64 i = 0; i < C17_SLACK; ++i) b[n + i] = '"';
-  for (u64 i = 0; i < 3; ++i) v[i] = ((xd_val(d[4 * i]) * 16 + xd_val(d[4 * i + 1])) * 16 + xd_val(d[4 * i + 2])) * 16 + xd_val(d[4 * i + 3]);
-  v[3] = 0;
+  for (u64 i = 0; i < 2; ++i) if (i < C17_SLACK) b[n + i] = (u8)slack[i];
+  for (u64 i = 0; i < C17_MAXE; ++i) v[i] = ((xd_val(d[4 * i]) * 16 + xd_val(d[4 * i + 1])) * 16 + xd_val(d[4 * i + 2])) * 16 + xd_val(d[4 * i + 3]);
+  v[C17_MAXE] = 0;
   /* expected: left to right; a high surrogate directly followed by a low surrogate is one supplementary code point
    * (Table 3-5), every other value stands for itself and must be a scalar value */
   u64 el = 0, i = 0; int lone = 0, pairs = 0;
-  for (u64 k = 0; k < 3; ++k) if (i < ne) {
+  for (u64 k = 0; k < C17_MAXE; ++k) if (i < ne) {
     u64 cp;
     if (is_high(v[i]) && i + 1 < ne && is_low(v[i + 1])) { cp = 0x10000 + (v[i] - 0xD800) * 0x400 + (v[i + 1] - 0xDC00); i += 2; pairs++; }
     else { cp = v[i]; i += 1; }
@@ -277,17 +285,35 @@ static void harness(void) {
     CHECK(o[0] == 1, "unescape_j succeeds when every surrogate is part of a high/low pair");
     check_string(o, e, el);
   }
+#define NE_IS(k) (ne == (k))
+#ifdef C17_NE
+#define HAS_NE(k) (C17_NE == (k))
+#else
+#define HAS_NE(k) ((k) <= C17_MAXE)
+#endif
+#if HAS_NE(1)
   REACH(ne == 1 && o[0] == 1 && o[1] == c17_npre + 3, "one BMP escape, 3-byte encoding");
   REACH(ne == 1 && o[0] == 2 && is_high(v[0]), "lone high surrogate at the end rejected");
   REACH(ne == 1 && o[0] == 2 && is_low(v[0]), "lone low surrogate rejected");
+#endif
+#if HAS_NE(2)
   REACH(ne == 2 && o[0] == 1 && pairs == 1 && o[1] == c17_npre + 4, "surrogate pair combined into one 4-byte encoding");
   REACH(ne == 2 && o[0] == 2 && is_high(v[0]) && !is_low(v[1]) && is_scalar(v[1]), "high surrogate followed by a BMP escape rejected");
   REACH(ne == 2 && o[0] == 2 && is_high(v[0]) && is_high(v[1]), "two high surrogates rejected");
   REACH(ne == 2 && o[0] == 1 && pairs == 0 && o[1] == c17_npre + 2, "two ASCII escapes encoded individually");
+#endif
+#if HAS_NE(3)
   REACH(ne == 3 && o[0] == 1 && pairs == 1 && is_high(v[0]) && o[1] == c17_npre + 7, "pair followed by a BMP escape");
   REACH(ne == 3 && o[0] == 1 && pairs == 1 && is_high(v[1]) && o[1] == c17_npre + 7, "BMP escape followed by a pair");
   REACH(ne == 3 && o[0] == 2 && pairs == 1 && is_low(v[2]), "pair followed by a lone low surrogate rejected");
   REACH(ne == 3 && o[0] == 2 && is_high(v[0]) && is_high(v[1]) && is_low(v[2]), "high, high, low rejected (first high is alone)");
   REACH(ne == 3 && o[0] == 1 && pairs == 0 && o[1] == c17_npre + 9 && c17_npre == 3, "three 3-byte escapes after a 3-byte prefix");
+#endif
+#if HAS_NE(4)
+  REACH(ne == 4 && o[0] == 1 && pairs == 2 && o[1] == c17_npre + 8, "two surrogate pairs");
+  REACH(ne == 4 && o[0] == 1 && pairs == 1 && is_high(v[1]) && o[1] == c17_npre + 10, "BMP, pair, BMP");
+  REACH(ne == 4 && o[0] == 2 && pairs == 1 && is_high(v[0]) && is_high(v[2]) && !is_low(v[3]), "pair followed by a lone high surrogate rejected");
+  REACH(ne == 4 && o[0] == 1 && pairs == 0 && o[1] == c17_npre + 12 && c17_npre == 3, "four 3-byte escapes after a 3-byte prefix");
+#endif
 }
 #endif
